@@ -1,4 +1,4 @@
-"""Rounding ties of the ledgers.
+"""Rounding ties of the ledgers (and of the scarcity test in the whole-step obligation).
 
 The ledgers round to a quantum (half to even).  The model rounds the exact value of
 `remaining - delivered` (resp. of the recovery function), the implementation rounds the
@@ -64,4 +64,23 @@ def tie_steps(trace):
                     cand = np.flatnonzero(np.abs((y - np.floor(y)) - 0.5) < 1e-4)
                     if any(_near_half(v[k], p) for k in cand):
                         out.add((t, "rec"))
+    # whole-step obligation: the model sums the demand matrix exactly, the implementation in binary64;
+    # the overproduction module branches on "scarcity == 0", which the two can decide differently when
+    # demand and production agree to the last bit; a ledger tie of the same step propagates as well
+    for st in trace["steps"]:
+        t = st["t"]
+        if (t, "reb") in out or (t, "rec") in out:
+            out.add((t, "step"))
+        pre = st.get("over_pre")
+        if pre is None or pre.get("dem") is None:
+            continue
+        dem, dtot, prod = pre["dem"], pre["dtot"], pre["prod"]
+        if not (np.all(np.isfinite(dem)) and np.all(np.isfinite(prod))):
+            continue
+        near = np.flatnonzero(np.abs(dtot - prod) <= 1e-12 * np.maximum(np.abs(dtot), 1e-300))
+        for f in near:
+            exact = sum((Fraction(float(v)) for v in dem[f]), Fraction(0))
+            if (exact == Fraction(float(prod[f]))) != (float(dtot[f]) == float(prod[f])):
+                out.add((t, "step"))
+                break
     return out
